@@ -64,6 +64,9 @@ def gen(rng, tier):
         # code (callable / poll function / another callback running), racing whatever completes the
         # future there; a second client observes or waits
         own = ["fn-enter", "fn-enter", "fn-enter", "pre-complete"] if mapped else ["pre-complete"] if kind in COMB_SUBJECTS else (["poll-final", "poll-enter", "call-exit"] if kind == "poll" else ["call-exit", "call-exit", "call-enter"])
+        if spec["end"] == "ext-cancel":
+            # the delegate / first input is cancelled behind the subject's back: the window is just before that
+            own = ["pre-complete"] * 3 + own
         t1 = rng.choice(own + own + triggers)
         clients = [[["cb"]] * rng.choice([0, 1, 2]) + [["await", t1], [rng.choice(["cancel", "cancel", "cb", "cb", "cb", "cbraise"])]],
                    [["await", rng.choice(own + triggers)], [rng.choice(["cb", "cb", "cancel", "result", "done", "wait"])]]]
@@ -174,6 +177,8 @@ def make_subject(spec, env):
         if spec["end"] == "ext-cancel":
             def hook():
                 env.sleep(spec["ext_at"])
+                env.hit("pre-complete")
+                sim.yield_point("user")
                 env.rec("ext-cancel", spy.reap())
         return f, hook
 
